@@ -187,6 +187,9 @@ impl<'a> Parser<'a> {
             .map(|(k, v)| (k.to_string(), v))
             .collect::<Vec<_>>();
 
+        #[cfg(feature = "verif-hooks")]
+        crate::verif_hooks::reorder(&mut expected_inputs, |(_, span)| span.start);
+
         expected_inputs.sort_by(|(_, a), (_, b)| a.start.cmp(&b.start));
 
         let mut read_outputs = self
@@ -194,6 +197,9 @@ impl<'a> Parser<'a> {
             .into_iter()
             .map(|(k, v)| (k.to_string(), v))
             .collect::<Vec<_>>();
+
+        #[cfg(feature = "verif-hooks")]
+        crate::verif_hooks::reorder(&mut read_outputs, |(_, span)| span.start);
 
         read_outputs.sort_by(|(_, a), (_, b)| a.start.cmp(&b.start));
 
@@ -210,6 +216,13 @@ impl<'a> Parser<'a> {
                 )
             })
             .collect();
+
+        #[cfg(feature = "verif-hooks")]
+        let virtual_signals = {
+            let mut virtual_signals: Vec<(VirtualSignal, logos::Span)> = virtual_signals;
+            crate::verif_hooks::reorder(&mut virtual_signals, |(_, span)| span.start);
+            virtual_signals
+        };
 
         ParseResult {
             expected_inputs,
